@@ -2,7 +2,7 @@
 from sqlite_dissect.file.database.database import Database
 
 from ..gen import sqlite_factory as F
-from . import dbcommon as C
+from . import dbcommon as C, specvalid as V
 
 ID = "C01"
 LEAN_MODULES = ["SqliteDissect.Properties.C01", "SqliteDissect.Properties.C01Cell", "SqliteDissect.Properties.C15", "SqliteDissect.Properties.C16",
@@ -29,6 +29,7 @@ def check_database(ctx, path, tables, case):
         for t, (names, alias) in tables.items():
             oracle = F.oracle_rows(path, t, names)
             rows += C.check_table_rows(ctx, db, t, names, alias, oracle, case)
+    ctx.extra["cells_validating_the_spec"] = ctx.extra.get("cells_validating_the_spec", 0) + V.validate_cells(ctx, path, case)
     C.keep_failing_files(ctx, n0, path)
     return rows
 
